@@ -505,7 +505,9 @@ def _key_lifetime(ctx, plan, scratch):
                             if a in ref_attrs and isinstance(val, str) and name in val.split():
                                 new[vn].attrs[a] = ' '.join(newname if tok == name else tok for tok in val.split())
                 elif kind == 'attr_add':
-                    new[name].attrs['verif_added'] = f'v{arg}'
+                    # ordinary and underscore-prefixed names alike: every attribute of a geometry variable is geometry
+                    aname = ['comment', 'note', '_CoordinateAxisType', '_ChunkSizes', 'valid_min'][arg % 5]
+                    new[name].attrs[aname] = f'v{arg}' if aname != 'valid_min' else float(arg)
                 elif kind == 'attr_change':
                     keys = sorted(k_ for k_, v_ in new[name].attrs.items() if k_ == 'long_name')
                     if keys:
